@@ -837,7 +837,8 @@ static Verdict eval_str(const Case &c) {
     } else {
         if (code != e.code)
             return failv("strtox.code", fmt("%s returned %d (value %s), the big-integer parse gives %d (value %s)", call.c_str(), code,
-                                            dec128(got).c_str(), e.code, dec128(e.value).c_str()));
+                                            code >= 0 ? dec128(got).c_str() : "not set", e.code,
+                                            e.code >= 0 ? dec128(e.value).c_str() : "none"));
         if (code >= 0 && got != e.value)
             return failv("strtox.value", fmt("%s returned %d with value %s, the numeral is %s", call.c_str(), code,
                                              dec128(got).c_str(), dec128(e.value).c_str()));
@@ -1144,6 +1145,13 @@ static void sweep_str() {
     const std::vector<std::string> tails = {"", " ", "x", "<", "-", "+", ".5", "e1", std::string("\0", 1), "\xff", "/", ":", " 1"};
     Case c;
     c.sub = S_STR;
+    for (int fn = 0; fn < NKIND; fn++) {  // the short texts first: the first failure of a kind is the one reported
+        c.kind = fn;
+        for (const char *t : {"", "+", "-", "+-", "-+", "x", "++1", "--1", "+ 1", " 1", "0x10", "-x", "+x", "1-", "1+", "- 1"}) {
+            c.bytes.assign(t, t + strlen(t));
+            sweep_eval(c);
+        }
+    }
     for (int fn = 0; fn < NKIND; fn++) {
         c.kind = fn;
         for (const char *sg : signs)
@@ -1162,10 +1170,6 @@ static void sweep_str() {
                             }
                         }
                     }
-        for (const char *s : {"", "+", "-", "+-", "-+", "++1", "--1", "+ 1", " 1", "x", "0x10", "-x", "+x", "1-", "1+", "- 1"}) {
-            c.bytes.assign(s, s + strlen(s));
-            sweep_eval(c);
-        }
     }
 }
 
@@ -1199,7 +1203,8 @@ static Gen<uint64_t> u64() {
                 return neg ? (uint64_t)0 - v : v;
             },
             full(gen::inRange(0, 64)), full(gen::inRange(-3, 4)), gen::arbitrary<bool>()),
-        gen::map(full(gen::inRange<int>(-70000, 70001)), [](int v) { return (uint64_t)(int64_t)v; }),
+        gen::apply([](int v, bool neg) { return (uint64_t)(int64_t)(neg ? -v : v); }, full(gen::inRange<int>(0, 70001)),
+                   gen::arbitrary<bool>()),
         gen::map(gen::container<std::vector<uint8_t>>(8, octet()), [](const std::vector<uint8_t> &b) {
             uint64_t v = 0;
             for (uint8_t x : b) v = (v << 8) | x;
@@ -1286,15 +1291,15 @@ static Gen<Case> oct() {
 }
 
 static Gen<uint64_t> mantissa() {
-    const uint64_t ones = 0xfffffffffffffull;
+    constexpr uint64_t ones = 0xfffffffffffffull;
     return gen::oneOf(
-        gen::map(full(gen::arbitrary<uint64_t>()), [ones](uint64_t v) { return v & ones; }),
-        gen::map(gen::arbitrary<uint64_t>(), [ones](uint64_t v) { return v & ones; }),  // low bits only
-        gen::apply([ones](uint64_t v, int sh) { return (v << sh) & ones; }, gen::arbitrary<uint64_t>(),
+        gen::map(full(gen::arbitrary<uint64_t>()), [](uint64_t v) { return v & ones; }),
+        gen::map(gen::arbitrary<uint64_t>(), [](uint64_t v) { return v & ones; }),  // low bits only
+        gen::apply([](uint64_t v, int sh) { return (v << sh) & ones; }, gen::arbitrary<uint64_t>(),
                    full(gen::inRange(0, 52))),  // few significant bits at any height: trailing zeros to normalise away
         gen::apply([](int a, int b, int c) { return ((uint64_t)1 << a) | ((uint64_t)1 << b) | ((uint64_t)1 << c); },
                    full(gen::inRange(0, 52)), full(gen::inRange(0, 52)), full(gen::inRange(0, 52))),
-        gen::apply([ones](int a) { return ones >> a << a; }, full(gen::inRange(0, 52))), gen::element<uint64_t>(0, 1, ones));
+        gen::apply([](int a) { return ones >> a << a; }, full(gen::inRange(0, 52))), gen::element<uint64_t>(0, 1, ones));
 }
 
 static Gen<uint64_t> dblbits() {
@@ -1305,10 +1310,10 @@ static Gen<uint64_t> dblbits() {
                               gen::element(0, 1, 2, 51, 52, 53, 895, 896, 1022, 1023, 1024, 1075, 1076, 2045, 2046, 2047)),
                    mantissa()),
         // values people write: small integers, binary and decimal fractions
-        gen::apply([](int i, int sh) { return d2bits(std::ldexp((double)i, -sh)); }, full(gen::inRange(-100000, 100001)),
-                   full(gen::inRange(0, 12))),
-        gen::apply([](int i, int p) { return d2bits((double)i * std::pow(10.0, p)); }, full(gen::inRange(-9999, 10000)),
-                   full(gen::inRange(-30, 31))));
+        gen::apply([](int i, int sh, bool neg) { return d2bits(std::ldexp((double)(neg ? -i : i), -sh)); },
+                   full(gen::inRange(0, 100001)), full(gen::inRange(0, 12)), gen::arbitrary<bool>()),
+        gen::apply([](int i, int p, bool neg, bool inv) { return d2bits((double)(neg ? -i : i) * std::pow(10.0, inv ? -p : p)); },
+                   full(gen::inRange(0, 10000)), full(gen::inRange(0, 31)), gen::arbitrary<bool>(), gen::arbitrary<bool>()));
 }
 
 static Gen<Case> dbl(Sub sub) {
